@@ -393,6 +393,13 @@ Definition run_prelu_kind (a : list Z) : list Z :=
 (* CMD axis_offsets = 17 : extents... -> offsets... *)
 Definition run_axis_offsets (a : list Z) : list Z := offsets_from 0 a.
 
+(* CMD tconv_pad = 18 : n K s on top bottom -> [ok reference_leading_padding] *)
+Definition run_tconv_pad (a : list Z) : list Z :=
+  match a with
+  | [n; k; s; on; top; bottom] => [if tconv_pad_ok n k s on top bottom then 1 else 0; tconv_ref_pad n k s on]
+  | _ => [-1]
+  end.
+
 Definition run (cmd : Z) (a : list Z) : list Z :=
   if cmd =? 1 then run_driver_payload a
   else if cmd =? 2 then run_driver_parse a
@@ -411,4 +418,5 @@ Definition run (cmd : Z) (a : list Z) : list Z :=
   else if cmd =? 15 then run_fold_check a
   else if cmd =? 16 then run_prelu_kind a
   else if cmd =? 17 then run_axis_offsets a
+  else if cmd =? 18 then run_tconv_pad a
   else [-1].
